@@ -395,6 +395,130 @@ fn check_bool(which: &str, cand: &[u8], h: &mut Hist) -> Vec<(String, String)> {
 }
 
 // ---------------------------------------------------------------------------------------------
+// (e) string-like parsers and adaptors: String, OsString, PathBuf, NonEmptyString, char, and
+// map / try_map / plain-function parsers layered over them. Language and typed value are read
+// off the documentation: String = valid UTF-8; OsString = anything; PathBuf = anything non-empty;
+// NonEmptyString = non-empty valid UTF-8; char = exactly one scalar value; map(f) = f of the inner
+// value; try_map / fn = inner language restricted to where the function answers Ok.
+const STRLIKE: [&str; 9] = ["string", "osstring", "pathbuf", "nonempty", "char", "map-len", "try-map-even", "fn-even", "os-map-len"];
+
+fn strlike_candidates() -> Vec<Vec<u8>> {
+    let mut out: Vec<Vec<u8>> = vec![];
+    let atoms: [&[u8]; 12] = [b"a", b"b", b" ", b"-", b"=", b",", "é".as_bytes(), "日".as_bytes(), b"\xff", b"\xc3", b"\n", b"0"];
+    out.push(vec![]);
+    for x in atoms {
+        out.push(x.to_vec());
+        for y in atoms {
+            let mut v = x.to_vec();
+            v.extend_from_slice(y);
+            out.push(v.clone());
+            for z in [&b"a"[..], "é".as_bytes(), b"\xff"] {
+                let mut w = v.clone();
+                w.extend_from_slice(z);
+                out.push(w);
+            }
+        }
+    }
+    out.sort();
+    out.dedup();
+    out
+}
+
+#[derive(Debug, PartialEq)]
+enum SWant {
+    Str(String),
+    Bytes(Vec<u8>),
+    Char(char),
+    Len(usize),
+    Reject(&'static str),
+}
+
+fn even(s: &str) -> Result<String, String> {
+    if s.chars().count() % 2 == 0 {
+        Ok(s.to_string())
+    } else {
+        Err("odd number of characters".to_string())
+    }
+}
+
+fn check_strlike(which: &str, cand: &[u8], h: &mut Hist) -> Vec<(String, String)> {
+    use clap::builder::TypedValueParser;
+    let mut bad = vec![];
+    let vp: ValueParser = match which {
+        "string" => clap::value_parser!(String).into(),
+        "osstring" => clap::value_parser!(std::ffi::OsString).into(),
+        "pathbuf" => clap::value_parser!(std::path::PathBuf).into(),
+        "nonempty" => clap::builder::NonEmptyStringValueParser::new().into(),
+        "char" => clap::value_parser!(char).into(),
+        "map-len" => clap::builder::StringValueParser::new().map(|s| s.chars().count()).into(),
+        "try-map-even" => clap::builder::StringValueParser::new().try_map(|s| even(&s)).into(),
+        "fn-even" => ValueParser::new(|s: &str| even(s)),
+        _ => clap::builder::OsStringValueParser::new().map(|s| os_bytes(&s).len()).into(),
+    };
+    let st = std::str::from_utf8(cand).ok();
+    let want = match which {
+        "string" => st.map(|s| SWant::Str(s.to_string())).unwrap_or(SWant::Reject("InvalidUtf8")),
+        "osstring" => SWant::Bytes(cand.to_vec()),
+        "pathbuf" => {
+            if cand.is_empty() {
+                SWant::Reject("InvalidValue")
+            } else {
+                SWant::Bytes(cand.to_vec())
+            }
+        }
+        "nonempty" => match st {
+            None => SWant::Reject("InvalidUtf8"),
+            Some("") => SWant::Reject("InvalidValue"),
+            Some(s) => SWant::Str(s.to_string()),
+        },
+        "char" => match st {
+            None => SWant::Reject("InvalidUtf8"),
+            Some(s) if s.chars().count() == 1 => SWant::Char(s.chars().next().unwrap()),
+            Some(_) => SWant::Reject("ValueValidation"),
+        },
+        "map-len" => st.map(|s| SWant::Len(s.chars().count())).unwrap_or(SWant::Reject("InvalidUtf8")),
+        "try-map-even" | "fn-even" => match st {
+            None => SWant::Reject("InvalidUtf8"),
+            Some(s) if s.chars().count() % 2 == 0 => SWant::Str(s.to_string()),
+            Some(_) => SWant::Reject("ValueValidation"),
+        },
+        _ => SWant::Len(cand.len()),
+    };
+    let r = cmd_with(vp).try_get_matches_from(argv_eq(cand));
+    match r {
+        Ok(m) => {
+            h.bump(&format!("{}/accepted", which));
+            h.nontrivial += 1;
+            let got = match which {
+                "string" | "nonempty" | "try-map-even" | "fn-even" => m.try_get_one::<String>("n").ok().flatten().map(|s| SWant::Str(s.clone())),
+                "osstring" => m.try_get_one::<std::ffi::OsString>("n").ok().flatten().map(|s| SWant::Bytes(os_bytes(s))),
+                "pathbuf" => m.try_get_one::<std::path::PathBuf>("n").ok().flatten().map(|s| SWant::Bytes(os_bytes(s.as_os_str()))),
+                "char" => m.try_get_one::<char>("n").ok().flatten().map(|c| SWant::Char(*c)),
+                _ => m.try_get_one::<usize>("n").ok().flatten().map(|c| SWant::Len(*c)),
+            };
+            if got.as_ref() != Some(&want) {
+                bad.push((format!("{}: accepted string or typed value differs from the parser's documented language", which), format!("string {:?}: got {:?} want {:?}", show(cand), got, want)));
+            }
+        }
+        Err(e) => {
+            h.bump(&format!("{}/rejected", which));
+            let k = format!("{:?}", e.kind());
+            match &want {
+                SWant::Reject(kind) => {
+                    if k != *kind {
+                        bad.push((format!("{}: rejection carries the wrong error kind", which), format!("string {:?}: {} want {}", show(cand), k, kind)));
+                    } else if !names_arg(&e) {
+                        bad.push((format!("{}: value error does not name the argument", which), String::new()));
+                    }
+                }
+                w => bad.push((format!("{}: a string inside the parser's language is rejected", which), format!("string {:?}: {} (want {:?})", show(cand), k, w))),
+            }
+        }
+    }
+    bad
+}
+
+// ---------------------------------------------------------------------------------------------
 // (c)
 fn pv_candidates() -> Vec<Vec<u8>> {
     let mut out: Vec<Vec<u8>> = vec![];
@@ -785,6 +909,10 @@ fn recheck(case: &Value) -> Vec<Violation> {
             let ic = case["ignore_case"].as_bool().unwrap_or(false);
             catch(|| check_pv(ic, &cand, &mut h))
         }
+        "strlike" => {
+            let which = case["parser"].as_str().unwrap_or("string").to_string();
+            catch(|| check_strlike(&which, &cand, &mut h))
+        }
         _ => catch(|| access_search().2.into_iter().map(|(c, w, tr)| (c, format!("history {:?}: {}", tr, w))).collect()),
     };
     match r {
@@ -803,7 +931,7 @@ fn main() {
     };
     let rep = Report::new(PROP, tier, cli.seed);
     let thorough = tier == Tier::Thorough;
-    rep.rule("(a) target type x range set (single ranges in 6 forms over boundary endpoints, chained pairs) x candidate string, parsed through a real Command (`--n=<string>`), against a big-integer reading; range sets the constructor's own debug assertions reject are skipped. (b) three bool-like parsers x all case variants / one-edit neighbours / look-alikes of every literal. (c) possible values x ignore_case x case variants, prefixes, aliases. (d) BFS to fixpoint over typed access histories (5 ids x 6 typed ops x 3 type parameters + 3 untyped ops) on one ArgMatches, deduplicated on a full dump, in lock-step with a map model. non-trivial = accepted values whose typed result was compared");
+    rep.rule("(a) target type x range set (single ranges in 6 forms over boundary endpoints, chained pairs) x candidate string, parsed through a real Command (`--n=<string>`), against a big-integer reading; range sets the constructor's own debug assertions reject are skipped. (b) three bool-like parsers x all case variants / one-edit neighbours / look-alikes of every literal. (c) possible values x ignore_case x case variants, prefixes, aliases. (e) String / OsString / PathBuf / NonEmptyString / char parsers and map / try_map / function adaptors x every byte string of <=3 atoms incl. empty, multi-byte and invalid UTF-8. (d) BFS to fixpoint over typed access histories (5 ids x 6 typed ops x 3 type parameters + 3 untyped ops) on one ArgMatches, deduplicated on a full dump, in lock-step with a map model. non-trivial = accepted values whose typed result was compared");
     rep.assume("`-0` (and -00…) for the u64-backed parser is unspecified (Rust's unsigned FromStr rejects it, the i64-backed parsers accept it)");
     rep.assume("possible values with ignore_case are compared with simple Unicode case folding (clap built with the `unicode` feature); `SS`/`ss` against `ß` is not pinned");
     rep.assume("typed access to an absent-but-defined argument with a wrong type may answer None or a downcast error");
@@ -887,6 +1015,25 @@ fn main() {
             }
         }
     }
+    let sc = strlike_candidates();
+    for which in STRLIKE {
+        for (ci, c) in sc.iter().enumerate() {
+            h.evaluations += 1;
+            h.states += 1;
+            h.transitions += 1;
+            h.validated += 1;
+            let mk = || json!({"part": "strlike", "parser": which, "string_hex": hex(c), "string_shown": show(c)});
+            match catch(|| check_strlike(which, c, &mut h)) {
+                Ok(bad) => {
+                    for (cause, w) in bad {
+                        rep.violation(Violation { cause: cause.clone(), order: (3 << 40, ci as u64), what: format!("{}: {}", cause, w), case: mk() });
+                    }
+                }
+                Err(p) => rep.violation(Violation { cause: p.key(), order: (3 << 40, ci as u64), what: p.show(), case: mk() }),
+            }
+        }
+    }
+    rep.set("string_like", json!({"candidate_strings": sc.len(), "parsers": STRLIKE}));
     rep.set("bool_like", json!({"candidate_strings": bc.len(), "parsers": 3}));
     rep.set("possible_values", json!({"candidate_strings": pc.len(), "ignore_case": [false, true]}));
     rep.sample(json!({"part": "bool", "example": "oN"}));
